@@ -116,15 +116,15 @@ def cases(d):
         params.append({"name": "p%d" % i, "type": {"kind": "bit", "w": w}})
         cp = gen_cp(d, i, w)
         if d.chance(35):
-            cp["iff"] = {d.choice(["field", "callable"]): "e%d" % i}
+            cp["iff"] = gen_iff(d, "e%d" % i)
         cps.append(cp)
-    gates = [c["iff"][list(c["iff"])[0]] for c in cps if c.get("iff")]
+    gates = [gate_name(c["iff"]) for c in cps if c.get("iff")]
     xcps = d.sample(list(range(ncp)), d.randint(2, ncp))
     if d.chance(70):
         xcps = sorted(xcps)
     x = {"name": "x0", "cps": ["cp%d" % i for i in xcps]}
     if d.chance(40):
-        x["iff"] = {d.choice(["field", "callable"]): "ex"}
+        x["iff"] = gen_iff(d, "ex")
         gates.append("ex")
     for g in gates:
         params.append({"name": g, "type": {"kind": "bit", "w": 1}})
@@ -152,11 +152,26 @@ def V(kind, detail, case, extra=None):
     return v
 
 
+def gen_iff(d, name):
+    """a sampling condition on the 1-bit parameter `name`: the field itself, a callable, or a compound expression (~, |, &,
+    inside, not_inside) that holds exactly when the parameter is 1"""
+    k = d.randint(0, 99)
+    if k < 35:
+        return {"field": name}
+    if k < 65:
+        return {"callable": name}
+    return {"expr": d.choice(sorted(cov.IFF_EXPR)), "of": name}
+
+
+def gate_name(iff):
+    return iff["of"] if "expr" in iff else iff[list(iff)[0]]
+
+
 def gate_of(item, env):
     iff = item.get("iff")
     if not iff:
         return 1
-    return 1 if env[iff[list(iff)[0]]] else 0
+    return 1 if env[gate_name(iff)] else 0
 
 
 def run_case(case):
